@@ -175,3 +175,15 @@ package tls
 //@   ensures ee_client: msgType == utlsTypeEncryptedExtensions && old(c.isClient) ==> ret1 == nil && istype(ret0, *encryptedExtensionsMsg) && ret0.(*encryptedExtensionsMsg) != nil
 //@   ensures ee_server: msgType == utlsTypeEncryptedExtensions && !old(c.isClient) ==> ret1 == nil && istype(ret0, *utlsClientEncryptedExtensionsMsg) && ret0.(*utlsClientEncryptedExtensionsMsg) != nil
 //@   ensures other: msgType != utlsTypeCompressedCertificate && msgType != utlsTypeEncryptedExtensions ==> ret0 == nil && called(sendAlert, 0) && callarg(sendAlert, 0, 1) == alertUnexpectedMessage
+
+// C12, TLS 1.2 key exchange group: the ephemeral key is generated, and the exchange carried out, only for a curve
+// that is among the hello's supported_groups (when the hello lists any). Thin contract of the upstream function.
+// History: before the fix "TLS 1.2 client rejects an ECDHE curve it did not offer" any implemented curve was
+// accepted (HelloChrome_100 / HelloGolang completed a handshake with a server using P-521, which they do not list).
+//@ func (*ecdheKeyAgreement).processServerKeyExchange
+//@   property C12 C33
+//@   unchecked safety pre
+//@   note unchecked: thin contract of an upstream function (anchor only); panic-freedom and callee preconditions are listed assumptions
+//@   requires ka != nil && clientHello != nil
+//@   at before call generateECDHEKey#0: assert curve_offered: len(clientHello.supportedCurves) > 0 ==> exists j in 0..len(clientHello.supportedCurves): clientHello.supportedCurves[j] == arg1
+//@   ensures curve_checked: ret == nil ==> called(generateECDHEKey, 0)
